@@ -725,3 +725,37 @@ def c15_r8(ctx):
     ctx.note(f"call graph: {F.cg.resolved} calls resolved, {F.cg.unresolved} attribute calls with unknown receiver type left out; main.client reaches {len(ef)} of {len(F.hooks)} hooks")
     if n < 4:
         raise AnalysisError(f"only {n} plugin state dependencies found")
+
+
+@rule("C15.R9", "ShorterResults counts the fields of a result class through every level of fragment base classes", min_instances=2)
+def c15_r9(ctx):
+    repo = ctx.repo
+    fi = repo.func("contrib.shorter_results:_get_all_fields")
+    outs = [o for o in Interp(fi, lambda e: None).run() if o.kind == "return" and not any("loop skipped" in t for t in o.trace)]
+    if not outs:
+        raise AnalysisError("_get_all_fields: no symbolic outcome")
+    texts = []
+    for o in outs:
+        v = strip_pre(o.deref(o.value)) if o.value is not None else None
+        texts.append(norm(v) if v is not None else "")
+        if isinstance(o.value, ast.Name):
+            texts += [norm(strip_pre(m)) for m in o.muts(o.value.id)]
+    joined = " ; ".join(texts)
+    # inherited fields: the function itself applied to the class of each base (recursion = every level of inheritance)
+    rec = [c for t in texts for c in _calls_in_text(t, fi.node.name)]
+    direct = [c for c in ast.walk(fi.node) if isinstance(c, ast.Call) and isinstance(c.func, ast.Name) and c.func.id == fi.node.name]
+    good = bool(rec or direct) and "class_def.bases" in norm(fi.node) and "class_dict[" in norm(fi.node)
+    ctx.check(good, key(fi, "inherited fields, recursively"),
+              f"the fields of a base class are not collected with {fi.node.name} itself (recursively): with `fragment Outer on Query {{ ...Inner }}` and `query {{ ...Outer version }}` the fields inherited through two "
+              f"levels are not counted, the result looks like a single-field result and is unwrapped, dropping data. Collected: {joined[:300]}", fi.loc(), okmsg="base classes: fields collected recursively")
+    src = norm(fi.node)
+    own = "class_def.body" in src and "ast.AnnAssign" in src and "isinstance(" in src
+    ctx.check(own, key(fi, "own fields"), f"the class's own annotated members are not counted: {joined[:200]}", fi.loc(), okmsg="own annotated members counted")
+
+
+def _calls_in_text(text: str, fname: str):
+    try:
+        tree = ast.parse(text.replace("<elem>", "_ELEM_").replace("<pre>", "_PRE_").replace("<setitem>", "_SETITEM_"), mode="eval")
+    except SyntaxError:
+        return []
+    return [c for c in ast.walk(tree) if isinstance(c, ast.Call) and isinstance(c.func, ast.Name) and c.func.id == fname]
